@@ -225,71 +225,99 @@ def extract_lines(out, tag):
 
 
 def validate_trace(module, trace, wd, constants, shards=8, timeout=1800, group_key=None):
-    """impl -> spec: validates an ndjson trace with spec/<module>.tla, sharded over several TLC
-    processes (events are independent unless group_key is given: then events with the same key stay
-    in one shard, in order).  Returns dict(events, bad, known, generated, distinct)."""
-    lines = [l for l in open(trace).read().splitlines() if l.strip()]
-    n = len(lines)
-    if n == 0:
+    """impl -> spec: validates an ndjson trace with spec/<module>.tla, cut into shards that are validated by up to `shards`
+    concurrent TLC processes (events are independent unless group_key is given: then events with the same key stay in one
+    shard, in order).  The trace is streamed: a shard never holds more than ~120 MB of ndjson, whatever the size of the trace.
+    Returns dict(events, bad, known, generated, distinct)."""
+    size = os.path.getsize(trace)
+    if size == 0:
         raise ToolError('empty trace ' + trace)
-    shards = max(1, min(shards, n // 50 + 1))
-    parts = [[] for _ in range(shards)]
-    if group_key is None:
-        for i, l in enumerate(lines):
-            parts[i * shards // n].append(l)
-    else:
-        cur = -1
-        lastkey = None
-        keys = [group_key(json.loads(l)) for l in lines]
-        groups = []
-        for l, k in zip(lines, keys):
-            if k != lastkey:
-                groups.append([])
-                lastkey = k
-            groups[-1].append(l)
-        per = (len(groups) + shards - 1) // shards
-        for gi, g in enumerate(groups):
-            parts[min(gi // per, shards - 1)].extend(g)
-        parts = [p for p in parts if p]
+    limit = min(120_000_000, max(size // shards + 1, 200_000))
+    files = []          # (path, number of events)
+    cur, cur_n, cur_size, lastkey = None, 0, 0, None
+
+    def close():
+        nonlocal cur, cur_n, cur_size
+        if cur is not None:
+            cur.close()
+            files.append((cur.name, cur_n))
+        cur, cur_n, cur_size = None, 0, 0
+    with open(trace) as f:
+        for line in f:
+            if not line.strip():
+                continue
+            key = group_key(json.loads(line)) if group_key else None
+            boundary = group_key is None or key != lastkey
+            lastkey = key
+            if cur is not None and cur_size >= limit and boundary:
+                close()
+            if cur is None:
+                cur = open(os.path.join(wd, 'shard%d.%s' % (len(files), os.path.basename(trace))), 'w')
+            cur.write(line if line.endswith('\n') else line + '\n')
+            cur_n += 1
+            cur_size += len(line)
+    close()
+    if not files:
+        raise ToolError('empty trace ' + trace)
     cfg = os.path.join(wd, module + '.cfg')
     write_cfg(cfg, spec='TraceSpec', constants=constants, invariants=['Report'], post='TraceAccepted')
-    procs = []
-    for i, part in enumerate(parts):
-        f = os.path.join(wd, 'shard%d.%s' % (i, os.path.basename(trace)))
-        open(f, 'w').write('\n'.join(part) + '\n')
-        meta = os.path.join(wd, 'tlc.shard%d.%d' % (i, os.getpid()))
-        shutil.rmtree(meta, ignore_errors=True)
-        env = _tlc_env({'TRACE': f}, deque=True)
-        env['JAVA_TOOL_OPTIONS'] += ' -Xmx2g -XX:ParallelGCThreads=1 -XX:CICompilerCount=2'
-        cmd = ['tlc', '-workers', '1', '-metadir', meta, '-cleanup', '-noGenerateSpecTE', '-config', cfg, module + '.tla']
-        procs.append((subprocess.Popen(cmd, cwd=SPEC, env=env, stdout=subprocess.PIPE, stderr=subprocess.STDOUT, text=True), f, meta, len(part)))
     res = {'events': 0, 'bad': [], 'known': set(), 'generated': 0, 'distinct': 0}
     t0 = time.time()
     err = None
-    for p, f, meta, cnt in procs:
-        try:
-            out, _ = p.communicate(timeout=max(1, timeout - (time.time() - t0)))
-        except subprocess.TimeoutExpired:
-            p.kill()
-            err = 'trace validation timed out (%s)' % module
-            continue
-        finally:
+    pending = list(enumerate(files))
+    running = []
+
+    def start(i, f):
+        meta = os.path.join(wd, 'tlc.shard%d.%d' % (i, os.getpid()))
+        shutil.rmtree(meta, ignore_errors=True)
+        env = _tlc_env({'TRACE': f}, deque=True)
+        env['JAVA_TOOL_OPTIONS'] += ' -Xmx3g -XX:ParallelGCThreads=1 -XX:CICompilerCount=2'
+        cmd = ['tlc', '-workers', '1', '-metadir', meta, '-cleanup', '-noGenerateSpecTE', '-config', cfg, module + '.tla']
+        out = open(f + '.out', 'w')
+        return subprocess.Popen(cmd, cwd=SPEC, env=env, stdout=out, stderr=subprocess.STDOUT, text=True), meta, out
+
+    while pending or running:
+        while pending and len(running) < shards:
+            i, (f, cnt) = pending.pop(0)
+            p, meta, outf = start(i, f)
+            running.append((p, f, meta, cnt, outf))
+        still = []
+        for p, f, meta, cnt, outf in running:
+            if p.poll() is None:
+                if time.time() - t0 > timeout:
+                    p.kill()
+                    err = 'trace validation timed out (%s)' % module
+                else:
+                    still.append((p, f, meta, cnt, outf))
+                    continue
+            outf.close()
             shutil.rmtree(meta, ignore_errors=True)
-        r = extract_lines(out, 'TRACE-RESULT')
-        if not r or 'No error has been found' not in out:
-            err = 'trace validation failed (%s, %s):\n%s' % (module, f, out[-5000:])
-            continue
-        r = r[-1]
-        if r['events'] != cnt:
-            err = 'trace validation consumed %d of %d events (%s)' % (r['events'], cnt, f)
-            continue
-        res['events'] += r['events']
-        res['bad'].extend(r['bad'])
-        res['known'].update(r['known'])
-        g, d = parse_stats(out)
-        res['generated'] += g
-        res['distinct'] += d
-        os.remove(f)
+            out = open(f + '.out').read()
+            os.remove(f + '.out')
+            if err and 'timed out' in err and p.returncode is not None and p.returncode < 0:
+                continue
+            r = extract_lines(out, 'TRACE-RESULT')
+            if not r or 'No error has been found' not in out:
+                err = 'trace validation failed (%s, %s):\n%s' % (module, f, out[-5000:])
+                continue
+            r = r[-1]
+            if r['events'] != cnt:
+                err = 'trace validation consumed %d of %d events (%s)' % (r['events'], cnt, f)
+                continue
+            res['events'] += r['events']
+            res['bad'].extend(r['bad'])
+            res['known'].update(r['known'])
+            g, d = parse_stats(out)
+            res['generated'] += g
+            res['distinct'] += d
+            os.remove(f)
+        running = still
+        if err and 'timed out' in err:
+            for p, f, meta, cnt, outf in running:
+                p.kill()
+            pending = []
+        if running:
+            time.sleep(0.05)
     if err:
         raise ToolError(err)
     log('trace validation %s: %d events, %d mismatches, %.1fs' % (module, res['events'], len(res['bad']), time.time() - t0))
